@@ -265,6 +265,14 @@ def c35_runs(tier):
         for p in ('b3pc', 'pb2e', 'ppp'):
             for c in ('OoB3', 'oB2i', 'ooo'):
                 add(3, 0, p, c, 3)
+        # exact capacities whose buffer size (capacity+1) is not a power of two: index arithmetic goes
+        # through the modulo path; programs long enough for the tail index to wrap below the head index
+        for p in ('pppb2', 'ppeb2', 'b2pb2', 'ppb2p'):
+            for c in ('oo', 'oO', 'B2o'):
+                add(2, 0, p, c, 2)
+        for p in ('b3b2pb2', 'b2b2pb3'):
+            for c in ('B3o', 'ooo'):
+                add(4, 0, p, c, 2)
     else:
         prods = _seqs(['p', 'c', 'e', 'b2', 'b3'], 2, 1) + ['ppp', 'pb2p', 'b2pp', 'eb3c', 'b3pc', 'pb2e']
         conss = _seqs(['o', 'O', 'i', 'B2', 'B3'], 2, 1) + ['ooo', 'oB2o', 'B2oo', 'OiB3', 'OoB3', 'oB2i']
@@ -276,6 +284,10 @@ def c35_runs(tier):
             for p in prods[-8:]:
                 for c in conss[-8:]:
                     add(cap, rnd, p, c, 4)
+        for cap in (2, 4, 5):
+            for p in ('pppb2', 'ppeb2', 'b2pb2', 'ppb2p', 'b3b2pb2', 'b2b2pb3', 'pb3pb3'):
+                for c in ('oo', 'oO', 'B2o', 'B3o', 'ooo', 'oB3'):
+                    add(cap, 0, p, c, 3)
     add(2, 1, 'pb2e', 'oB2i', 2, mode='tsan')
     add(3, 0, 'b3pc', 'OoB3', 2, mode='asan')
     return runs
